@@ -181,6 +181,30 @@ Theorem sd_refines_array : forall shape nt ops,
 Proof. exact sd_refines_array_lemma. Qed.
 Print Assumptions sd_refines_array.
 
+(** SDsetfillmode in a writable session: SD_NOFILL sets no-fill mode, and switching back with SD_FILL restores fill
+    mode (ncsetfill's "changing back to fill mode" block reaches the statement that clears NC_NOFILL; every return in
+    front of it is guarded by an I/O failure -- regenerated from file.c by the translator kind guarded_returns) *)
+Theorem fill_mode_restored : forall m, m_rdonly m = false ->
+  m_nofill (fst (m_step m (OpMode NC_NOFILL))) = true /\
+  m_nofill (fst (m_step (fst (m_step m (OpMode NC_NOFILL))) (OpMode NC_FILL))) = false /\
+  m_nofill (fst (m_step m (OpMode NC_FILL))) = false.
+Proof. exact fill_mode_restored_lemma. Qed.
+Print Assumptions fill_mode_restored.
+
+(** A read of a dataset that has no data yet returns the fill value in EVERY requested element, in a read-write
+    session (template branch) and in a read-only session (hdf_get_vp_aid fails, data_ref == 0), with a user-set
+    fill value (HDmemfill, element count) or the type's default (NC_arrayfill, byte length): the four call
+    arguments are regenerated from putget.c. *)
+Theorem empty_read_fills_all_elements : forall m count, 0 < m_esz m ->
+  match m_fillattr m with
+  | Some _ => if m_rdonly m then vdata_rdonly_memfill_count count (m_esz m)
+              else vdata_template_memfill_count count (m_esz m)
+  | None => (if m_rdonly m then vdata_rdonly_arrayfill_bytes count (m_esz m)
+             else vdata_template_arrayfill_bytes count (m_esz m)) / m_esz m
+  end = count.
+Proof. exact empty_read_fills_all. Qed.
+Print Assumptions empty_read_fills_all_elements.
+
 (** the simulation relation is established by SDcreate and preserved by every operation of the domain *)
 Theorem sim_invariant :
   (forall shape nt, (0 < length shape)%nat -> Forall (fun d => 1 <= d) shape ->
@@ -208,10 +232,10 @@ Proof. vm_compute. reflexivity. Qed.
 
 (** first write of 2 elements at element 3 of a new 2x3 int32 dataset, user fill 7 *)
 Example ex_first_write :
-  let m := mkM [2; 3] 4 0 (Some 7) 0 false [] 0 in
+  let m := mkM [2; 3] 4 0 (Some 7) 0 false [] 0 false in
   var_len m = 6 * 4 /\
   xdr_vdata m true (3 * 4) 2 [Val 100; Val 101] =
-    Some (mkM [2; 3] 4 0 (Some 7) 0 false [Val 7; Val 7; Val 7; Val 100; Val 101; Val 7] 0,
+    Some (mkM [2; 3] 4 0 (Some 7) 0 false [Val 7; Val 7; Val 7; Val 100; Val 101; Val 7] 0 false,
           [TWrite 0 12; TWrite 12 8; TWrite 20 4], []).
 Proof. vm_compute. split; reflexivity. Qed.
 
@@ -223,10 +247,10 @@ Proof. vm_compute. reflexivity. Qed.
 
 (** growth: numrecs 1 -> write positioned at record 3 of an (unlimited x 2) uint8 dataset *)
 Example ex_growth :
-  let m := mkM [0; 2] 1 1 None 129 false [Val 1; Val 2] 0 in
+  let m := mkM [0; 2] 1 1 None 129 false [Val 1; Val 2] 0 false in
   is_recvar m = true /\ var_len m = 2 * 1 /\
   coordck m true [3; 0] =
-    Some (mkM [0; 2] 1 4 None 129 false [Val 1; Val 2; Val 129; Val 129; Val 129; Val 129; Val 129; Val 129] 0,
+    Some (mkM [0; 2] 1 4 None 129 false [Val 1; Val 2; Val 129; Val 129; Val 129; Val 129; Val 129; Val 129] 0 false,
           [TWrite 2 2; TWrite 4 2; TWrite 6 2]).
 Proof. vm_compute. repeat split; reflexivity. Qed.
 
@@ -244,7 +268,7 @@ Proof. vm_compute. repeat split; auto. repeat constructor; discriminate. Qed.
 (** frame instance: 3x4 uint8 dataset with storage; the failing request of ex_oob (rows 1..3 x columns 1..2) leaves
     cell (0,0) (index 0, offset 0 not among the slab's offsets) unchanged and does write cell (1,1) (index 5) *)
 Example ex_frame :
-  let m := mkM [3; 4] 1 0 None 129 false (repeat (Val 7) 12) 0 in
+  let m := mkM [3; 4] 1 0 None 129 false (repeat (Val 7) 12) 0 false in
   ~ In (Z.of_nat 0 * m_esz m) (map (varoffset m) (slab_cells [1; 1] (ones [1; 1]) [3; 2])) /\
   snd (sd_write m false [1; 1] [] [3; 2] [1;2;3;4;5;6]) = MRet (-1) [TWrite 5 2; TWrite 9 2] /\
   m_store (fst (sd_write m false [1; 1] [] [3; 2] [1;2;3;4;5;6])) =
